@@ -213,6 +213,77 @@ func ordered(in []rec) {
 	}
 }
 
+// orderedFloats: Ordered values that compare equal yet can be told apart exist: +0 and -0. Sorting them in either
+// direction is stable - the zeroes keep the order (of signs) they had in the input. All lists up to length 5 over
+// {+0, -0, 1.5}, and two lists of 13 and 17 elements.
+func orderedFloats() {
+	negZero := math.Copysign(0, -1)
+	syms := []float64{0, negZero, 1.5}
+	var lists [][]float64
+	var gen func(cur []float64, n int)
+	gen = func(cur []float64, n int) {
+		if len(cur) == n {
+			lists = append(lists, append([]float64{}, cur...))
+			return
+		}
+		for _, v := range syms {
+			gen(append(cur, v), n)
+		}
+	}
+	for n := 2; n <= 5; n++ {
+		gen(nil, n)
+	}
+	for _, n := range []int{13, 17} {
+		var l []float64
+		for i := 0; i < n; i++ {
+			l = append(l, syms[(i*i+i/3)%3])
+		}
+		lists = append(lists, l)
+	}
+	signs := func(l []float64) string {
+		var b []byte
+		for _, v := range l {
+			if v == 0 {
+				if math.Signbit(v) {
+					b = append(b, '-')
+				} else {
+					b = append(b, '+')
+				}
+			}
+		}
+		return string(b)
+	}
+	for _, in := range lists {
+		inputs++
+		for _, t := range []struct {
+			name string
+			asc  bool
+			f    func(l []float64) []float64
+		}{
+			{"SortOrderedAscending", true, func(l []float64) []float64 { return fpgo.SortOrderedAscending(l...) }},
+			{"SortOrderedDescending", false, func(l []float64) []float64 { return fpgo.SortOrderedDescending(l...) }},
+			{"SortOrdered(true)", true, func(l []float64) []float64 { return fpgo.SortOrdered(true, l...) }},
+			{"SortOrdered(false)", false, func(l []float64) []float64 { return fpgo.SortOrdered(false, l...) }},
+		} {
+			evals++
+			var out []float64
+			if p := lib.Catch(func() { out = t.f(append([]float64{}, in...)) }); p != "" {
+				bad(t.name, "panic", "%s(%v): %s", t.name, in, p)
+				continue
+			}
+			ok := len(out) == len(in)
+			for i := 0; ok && i+1 < len(out); i++ {
+				ok = (t.asc && out[i] <= out[i+1]) || (!t.asc && out[i] >= out[i+1])
+			}
+			if !ok {
+				bad(t.name, "ordered", "%s(%v) = %v", t.name, in, out)
+			} else if signs(out) != signs(in) {
+				bad(t.name, "stable|signed-zeroes", "%s on %v: the zeroes come out with the signs %q, they went in as %q (equal elements keep their input order)", t.name, in, signs(out), signs(in))
+			}
+		}
+	}
+}
+
 // ---- descriptors ----
 
 type keySpec struct {
@@ -1128,6 +1199,7 @@ func main() {
 	missingKeys(rowLen)
 	callerOwnedDescriptorList()
 	prefixStringKeys()
+	orderedFloats()
 	// once more in the same process, after every record type, field name and stack has been sorted once (a
 	// descriptor's meaning must not depend on what was sorted before); the row lists one element shorter
 	skipLongRows = true
